@@ -12,7 +12,8 @@ thread_local! {
     /// How library values are put together from the model (the same value by a different public route):
     /// bits 0..1: names — 0 from labels, 1 as `<name>.zz.invalid` without `zz.invalid` (Name::without),
     /// 2 from text where the labels allow it (Name::new_unchecked); bit 2: NSEC windows stored in
-    /// descending order (the writers sort them).
+    /// descending order (the writers sort them); bit 3: SVCB / HTTPS parameters set to a placeholder first and
+    /// then replaced through the same setter.
     static BUILD_VARIANT: std::cell::Cell<u8> = const { std::cell::Cell::new(0) };
 }
 
@@ -509,8 +510,25 @@ pub fn build_rdata<'a>(rd: &'a ARData) -> Result<RData<'a>, String> {
                 Some(Val::Pairs(v)) => v,
                 o => return Err(format!("expected Pairs, got {:?}", o)),
             };
-            for (k, v) in pairs {
-                s.set_param(*k, &v.0[..]).map_err(|e| format!("set_param: {:?}", e))?;
+            if BUILD_VARIANT.with(|x| x.get()) & 8 != 0 {
+                // variant 8: every parameter is first set to a placeholder and then replaced ("If a parameter of
+                // the given key already existed, the previous entry will be replaced"): even keys are replaced
+                // at once, the odd ones after all the others, highest key first
+                for (k, v) in pairs {
+                    s.set_param(*k, &b"\x00placeholder"[..]).map_err(|e| format!("set_param: {:?}", e))?;
+                    if k % 2 == 0 {
+                        s.set_param(*k, &v.0[..]).map_err(|e| format!("set_param: {:?}", e))?;
+                    }
+                }
+                for (k, v) in pairs.iter().rev() {
+                    if k % 2 == 1 {
+                        s.set_param(*k, &v.0[..]).map_err(|e| format!("set_param: {:?}", e))?;
+                    }
+                }
+            } else {
+                for (k, v) in pairs {
+                    s.set_param(*k, &v.0[..]).map_err(|e| format!("set_param: {:?}", e))?;
+                }
             }
             if code == 64 {
                 RData::SVCB(s)
